@@ -5,7 +5,7 @@ import os, re, subprocess, sys
 COQ = '/verif/coq'
 HEADER = '''From Coq Require Import ZArith List Bool Arith Lia.
 From QV Require Import Core.Bits Core.Pauli Core.Symp Core.Code Core.Span Core.Rank Core.Dist Core.DistCSS Generated.LatticeArith.
-From QV Require Import Lattice.Basic Lattice.Planar Lattice.Toric Lattice.PlanarBounded Lattice.ToricBounded Lattice.PlanarAll Lattice.ToricAll Lattice.PlanarRankAll Lattice.ToricPathWeightAll Lattice.PlanarDistAll.
+From QV Require Import Lattice.Basic Lattice.Planar Lattice.Toric Lattice.PlanarBounded Lattice.ToricBounded Lattice.PlanarAll Lattice.ToricAll Lattice.PlanarRankAll Lattice.ToricPathWeightAll Lattice.PlanarDistAll Lattice.ToricRankAll Lattice.ToricDistAll.
 From QV Require Import Lattice.RotPlanar Lattice.RotToric Lattice.Color Lattice.RotPlanarAll Lattice.RotPlanarBounded Lattice.RotToricBounded Lattice.ColorBounded Lattice.RotPlanarValidAll Lattice.RotToricValidAll Lattice.RotToricPathAll Lattice.ColorValidAll.
 Import ListNotations.
 Open Scope Z_scope.
@@ -24,6 +24,9 @@ SPEC = {
    ('planar_stabilizers_logicals_independent', ''), ('planar_stabilizers_count', ''),
    ('toric_valid_all', 'TORIC, ALL SIZES rows, cols >= 2: validate = Ok'),
    ('toric_flatten_bijective_all', 'toric, all sizes: flatten bijection'),
+   ('toric_rank_is_all', 'TORIC, ALL SIZES: rank of the stabilizers is n-k = n-2 and stabilizers with the 4 logicals have rank n+2'), ('toric_rank_all', 'the same with n, k read off the translated n_k_d formula'),
+   ('toric_sublattice_products_identity', 'toric, all sizes: the two dependencies (product of all primal / all dual generators is the identity)'),
+   ('toric_reduced_independent', ''), ('toric_stab_in_reduced_span', ''),
    ('planar_ctor_ok_iff', 'planar/toric constructor acceptance = documented range'), ('toric_ctor_ok_iff', ''),
    ('planar_ctor_type_error_iff', ''), ('toric_ctor_type_error_iff', ''),
    ('planar_valid_upto8_spec', 'planar <= 8x8 (vm_compute)'), ('planar_shapes_upto8_spec', 'planar <= 8x8: n, k = matrix shapes'),
@@ -53,7 +56,11 @@ SPEC = {
    ('planar_is_distance_nkd', 'the same with n and d read off the translated n_k_d formula'),
    ('planar_centralizer', 'planar, all sizes: an operator commuting with all stabilizers and both logicals is a stabilizer product'),
    ('planar_anticommute_z_weight', ''), ('planar_anticommute_x_weight', ''),
-   ('toric_distance_upper', 'TORIC, ALL SIZES: d = min(rows, cols) attained by a supplied logical'), ('toric_logical_weights', ''),
+   ('toric_distance_upper', 'TORIC, ALL SIZES: d = min(rows, cols) attained by a supplied logical'),
+   ('toric_is_distance_all', 'TORIC, ALL SIZES: min(rows, cols) IS the minimum distance (upper and lower bound)'), ('toric_is_distance_nkd', ''),
+   ('toric_distance_lower_all', 'toric, all sizes: every non-trivial normalizer element has weight >= min(rows, cols)'),
+   ('toric_centralizer', 'toric, all sizes: an operator commuting with all stabilizers and all four logicals is a stabilizer product'),
+   ('toric_distance_lower_partial', ''), ('toric_anticommute_z1_weight', ''), ('toric_anticommute_x1_weight', ''), ('toric_logical_weights', ''),
    ('planar_distance_upto5_spec', 'planar <= 5x5 except 5x5: is_distance (exhaustive CSS search in the kernel)'),
    ('toric_distance_upto5_spec', 'toric <= 5x5 except 5x5'),
    ('rotplanar_distance_upto_6x5', 'rotated planar 3..6 with min <= 5'), ('rp_logical_weights_all', 'rotated planar, all sizes: lighter logical weighs d'),
